@@ -32,16 +32,27 @@ partial def parseTy (t : List String) : Option (CTy × List String) :=
   | b :: r => (Conv.baseTyOfName b).map fun b => (.base b, r)
   | [] => none
 
-/-- leaf tags of a descriptor, depth first: true = function pointer -/
-partial def leafTags (t : List String) : List Bool :=
+/-- leaf tags of a descriptor, depth first: true = function pointer (computed structurally, so that arrays of arrays
+and arrays inside structs are handled) -/
+partial def tagsOf (t : List String) : Option (List Bool × List String) :=
   match t with
-  | [] => []
-  | "fn" :: r => true :: leafTags r
-  | "arr" :: n :: k :: r =>
-      let cnt := n.toNat?.getD 0
-      (List.replicate cnt (k == "fn")) ++ leafTags r
-  | "struct" :: _ :: r => leafTags r
-  | _ :: r => false :: leafTags r
+  | "fn" :: r => some ([true], r)
+  | "arr" :: n :: r => do
+      let n ← n.toNat?
+      let (el, r') ← tagsOf r
+      pure ((List.replicate n el).flatten, r')
+  | "struct" :: k :: r => do
+      let k ← k.toNat?
+      let rec go (i : Nat) (r : List String) (acc : List Bool) : Option (List Bool × List String) :=
+        if i = 0 then some (acc, r) else
+        match tagsOf r with
+        | none => none
+        | some (ts, r') => go (i - 1) r' (acc ++ ts)
+      go k r []
+  | _ :: r => some ([false], r)
+  | [] => none
+
+def leafTags (t : List String) : List Bool := ((tagsOf t).map (·.1)).getD []
 
 /-- build a value of type `t` from leaf tokens; `guest` selects how pointer tokens are read -/
 partial def build (guest : Bool) (base : Nat) : CTy → List (String × Bool) → Option (SVal × List (String × Bool))
